@@ -448,3 +448,92 @@ def replay(prop, cls, case):
     r = execute(case)
     hit = any(p == prop and c == cls for p, c, _, _ in r["problems"])
     return hit, dict(problems=[(p, c, m, i) for p, c, m, i in r["problems"]][:5], stats=r["stats"])
+
+
+# ---------------------------------------------------------------------------
+# second generator: Hypothesis strategies feeding the same executor
+# ---------------------------------------------------------------------------
+
+def _resolve(cfg, raw_ops):
+    """Turn Hypothesis-drawn raw ops (with references by index) into an explicit history."""
+    D, level = cfg["D"], cfg["level"]
+    pts, ops = [], []
+    yctr = 0
+    for r in raw_ops:
+        kind, ref, coords, yv, sdv, record, k_share, tol_i, proj = r
+        coords = [GRID[c % len(GRID)] for c in coords[:D]] + [0.0] * max(0, D - len(coords))
+        if kind in ("call", "add", "fault"):
+            if ref is not None and pts:
+                base = list(pts[ref % len(pts)])
+                if k_share is None:
+                    x = base
+                else:
+                    x = list(base)
+                    for j in range(D):
+                        if (k_share >> j) & 1 and coords[j] != x[j]:
+                            x[j] = coords[j]
+            else:
+                x = coords
+            yctr += 1
+            y = float(yv) + yctr * 1e-3
+            sd = float(sdv) if level == 2 else None
+            if kind == "fault":
+                kinds = ["raise", "val:nan", "val:inf", "val:complex", "val:vector", "val:none"] + (["sd:zero", "sd:neg", "sd:nan", "form:scalar"] if level == 2 else [])
+                ops.append(dict(op="fault", x=x, fault=kinds[tol_i % len(kinds)], sd=sd, record=record))
+            elif kind == "add":
+                if level == 1 and x in pts:
+                    continue
+                ops.append(dict(op="add", x=x, y=y, sd=(float(sdv) if level > 0 and record else None)))
+                if x not in pts:
+                    pts.append(x)
+            else:
+                ops.append(dict(op="call", x=x, y=y, sd=sd, record=record))
+                if record and x not in pts:
+                    pts.append(x)
+        else:
+            tol = [1e-6, 1e-3, 0.01, 0.25][tol_i % 4]
+            U = [list(pts[ref % len(pts)])] if (ref is not None and pts) else []
+            U.append(coords)
+            if pts:
+                p = list(pts[(tol_i + 1) % len(pts)])
+                p[0] += 0.45 * tol
+                U.append(p)
+            ops.append(dict(op="filter", U=U, lb=[-1.0] * D, ub=[1.0] * D, tol=tol, proj=proj))
+    return dict(cfg=cfg, ops=ops)
+
+
+def run_hypothesis(arg):
+    """One Hypothesis run (one PRNG value) in a child; returns failing minimal histories."""
+    seed, max_examples, props = arg
+    import hypothesis
+    from hypothesis import given, settings, strategies as st, HealthCheck
+    cfg_st = st.fixed_dictionaries(dict(D=st.integers(1, 4), level=st.sampled_from([0, 1, 2, 2]), cache_size=st.integers(1, 8),
+                                        transform=st.sampled_from(["none", "linear", "log", "mixed"])))
+    op_st = st.tuples(st.sampled_from(["call", "call", "call", "add", "fault", "filter"]), st.one_of(st.none(), st.integers(0, 30)),
+                      st.lists(st.integers(0, 8), min_size=4, max_size=4), st.integers(-5000, 5000).map(lambda v: v / 1000.0),
+                      st.integers(50, 3000).map(lambda v: v / 1000.0), st.booleans(), st.one_of(st.none(), st.integers(1, 14)),
+                      st.integers(0, 9), st.booleans())
+    failures = []
+    stats = dict(examples=0, ops=0)
+
+    @hypothesis.seed(seed)
+    @settings(max_examples=max_examples, database=None, deadline=None, report_multiple_bugs=False,
+              suppress_health_check=list(HealthCheck), derandomize=False)
+    @given(cfg_st, st.lists(op_st, min_size=1, max_size=40))
+    def prop(cfg, raw):
+        h = _resolve(cfg, raw)
+        if not h["ops"]:
+            return
+        stats["examples"] += 1
+        stats["ops"] += len(h["ops"])
+        r = execute(h)
+        bad = [p for p in r["problems"] if p[0] in props and not (p[0] == "C17" and p[1] == "filter-already-evaluated")]
+        if bad:
+            prop.last = (h, bad)
+            raise AssertionError(bad[0][1])
+    try:
+        prop()
+    except AssertionError:
+        h, bad = prop.last
+        failures.append((h, [(p, c, m, i) for p, c, m, i in bad]))
+    return dict(stats=stats, failures=failures, seed=seed)
